@@ -1,7 +1,8 @@
 (** C15 — property theorems (statements only; proofs by [exact]). *)
 From Coq Require Import ZArith NArith List Bool Sorting.Permutation Sorting.Sorted.
 From RlibV Require Import C15.Model C15.Spec C15.Corr C15.ProofsMasks C15.ProofsMasksEnum C15.ProofsPerm C15.ProofsIter
-  C15.ProofsSmall C15.ProofsNb C15.ProofsCorrPerm C15.ProofsCorrMasks C15.ProofsCorr.
+  C15.ProofsSmall C15.ProofsNb C15.ProofsCorrPerm C15.ProofsCorrMasks C15.ProofsTake C15.ProofsDirect C15.ProofsDeposit
+  C15.ProofsCorr.
 Import ListNotations.
 
 (** ** masks *)
@@ -139,6 +140,37 @@ Proof. exact supermasks_count. Qed.
     (first element chosen among the distinct values in increasing order, recursively) *)
 Theorem c15_iter_permutations_enumerated : forall d : list Z, iter_permutations d = Some (all_arrangements d).
 Proof. exact iter_permutations_all_arrangements. Qed.
+
+(** the direct description of the successor used by Corr.v for sequences of every length (pivot position, least greater
+    element of the non-increasing rest, sorted rearranged tail; reversal on non-increasing input) holds of a pair
+    (returned bool, data afterwards) exactly when the pair is what next_permutation computes, hence it accepts exactly
+    what the brute-force [spec_next] (successor in the enumerated listing of all arrangements) accepts *)
+Theorem c15_next_perm_direct : forall (d : list Z) (r : bool) (out : list Z),
+  spec_next_direct d r out = true <-> (r, out) = next_permutation d.
+Proof. exact spec_next_direct_iff. Qed.
+Theorem c15_spec_next_direct_agrees : forall (d : list Z) (r : bool) (out : list Z),
+  spec_next_direct d r out = spec_next d r out.
+Proof. exact spec_next_direct_agrees. Qed.
+
+(** [take(k)] of the three iterators (called [next()] at most k times) is the first k items of the full listing *)
+Theorem c15_submasks_take : forall (w x : N) (l : list N) (k : nat),
+  iter_submasks w x = Some l -> iter_submasks_take w x k = firstn k l.
+Proof. exact iter_submasks_take_firstn. Qed.
+Theorem c15_supermasks_take : forall (w x : N) (l : list N) (k : nat),
+  iter_supermasks w x = Some l -> iter_supermasks_take w x k = firstn k l.
+Proof. exact iter_supermasks_take_firstn. Qed.
+Theorem c15_iter_permutations_take : forall (d : list Z) (l : list (list Z)) (k : nat),
+  iter_permutations d = Some l -> iter_permutations_take d k = firstn k l.
+Proof. exact iter_permutations_take_firstn. Qed.
+
+(** closed form, every width: the i-th submask is the one whose bits at the one positions of x read
+    2^popcount x - 1 - i ([deposit]), the i-th supermask is x + the submask of the complement that reads i *)
+Theorem c15_submasks_take_closed : forall (w x : N) (k : nat), (x < 2 ^ w ->
+  iter_submasks_take w x k = sub_closed x (2 ^ popcount x - 1) k)%N.
+Proof. exact iter_submasks_take_closed. Qed.
+Theorem c15_supermasks_take_closed : forall (w x : N) (k : nat), (x < 2 ^ w ->
+  iter_supermasks_take w x k = sup_closed x (2 ^ w - 1 - x) (2 ^ popcount (2 ^ w - 1 - x) - 1) 0 k)%N.
+Proof. exact iter_supermasks_take_closed. Qed.
 
 (** on in-scope cases (mask width at most 128) an observation that agrees with the model satisfies the brute-force
     specification of Corr.v: the batch lemma about the model carries the specification to the implementation by proof *)
